@@ -620,8 +620,57 @@ def emit_case(batch, i, g, ob):
 FAMILIES = ["dag", "dag", "gated", "gated", "endgates", "emit", "loop", "loop_sync", "cyc", "twocyc", "shared"]
 
 
+def hidden_node_part(ctx):
+    """Nodes created with hide=True (left out of the drawing): the self-consistency clause still holds in every state and output
+    mode - every edge endpoint of the interactive data is a declared node of that state, and in Mermaid every edge endpoint is a
+    declared id.  (The faithfulness checker does not model hidden nodes; only this clause is decided for them.)"""
+    import re
+    from hypergraph import Graph
+    from hypergraph.nodes import FunctionNode
+    from hypergraph.viz.renderer import render_graph
+    rng = ctx.rng
+
+    def mk(name, ins, out, hide):
+        ns = {}
+        exec(f"def {name}({', '.join(ins)}):\n    return 0\n", ns)  # noqa: S102 - fixed names
+        return FunctionNode(ns[name], name=name, output_name=out, hide=hide)
+    n = 0
+    for _ in range(ctx.n(12, 80)):
+        k = rng.randint(2, 4)
+        hidden = {i for i in range(k) if rng.random() < 0.4} or {rng.randrange(k)}
+        extra = {i for i in range(k) if rng.random() < 0.5}          # nodes that also read a graph input of their own
+        ns = [mk(f"h{i}", ([f"v{i - 1}"] if i else ["x"]) + ([f"y{i}"] if i in extra else []), f"v{i}", i in hidden) for i in range(k)]
+        cut = rng.randint(1, k - 1) if rng.random() < 0.5 else None
+        g = Graph(ns[:cut] + [Graph(ns[cut:], name="inner").as_node()]) if cut else Graph(ns)
+        case = {"family": "hidden_nodes", "k": k, "hidden": sorted(hidden), "own_inputs": sorted(extra), "nested_from": cut}
+        meta = render_graph(g.to_flat_graph())["meta"]
+        for key, edges in meta["edgesByState"].items():
+            ids = {m["id"] for m in meta["nodesByState"][key]}
+            bad = sorted({(e["source"], e["target"]) for e in edges if e["source"] not in ids or e["target"] not in ids})
+            n += 1
+            if bad:
+                ctx.violation("oracle", f"interactive drawing {key}: edges with an endpoint that is not a declared node of that state: {bad[:3]} "
+                              f"(hidden nodes {[f'h{i}' for i in sorted(hidden)]})", case=case)
+                break
+        for depth in (0, 1):
+            src = g.to_mermaid(depth=depth) if hasattr(g, "to_mermaid") else None
+            if src is None:
+                break
+            text = str(getattr(src, "source", src))
+            declared = set(re.findall(r"^\s*(?:subgraph\s+)?([A-Za-z_][\w]*)\s*[\[\(\{>]", text, flags=re.M))
+            ends = set()
+            for a, b in re.findall(r"^\s*([A-Za-z_]\w*)\s*[-=.]+(?:\|[^|]*\|)?[-=.]*>\s*(?:\|[^|]*\|\s*)?([A-Za-z_]\w*)\s*$", text, flags=re.M):
+                ends.update((a, b))
+            n += 1
+            missing = sorted(e for e in ends if e not in declared)
+            if missing:
+                ctx.violation("oracle", f"Mermaid (depth {depth}): edge endpoints that are not declared ids: {missing[:3]} (hidden nodes {[f'h{i}' for i in sorted(hidden)]})", case=case)
+    return n
+
+
 def run(ctx):
     rng = ctx.rng
+    n_hidden = hidden_node_part(ctx)
     batch = CoqBatch("C20", ["Base", "Viz", "VizMaps", "VizProducers"], shard=40, detail_limit=100000)
     cases, infos = [], {}
     dist = {"family": {}, "depth": {}, "renamed": 0, "rejected": 0, "states": 0, "mermaid": 0, "interactive": 0}
@@ -713,7 +762,7 @@ def run(ctx):
             sample = {"graph": cases[i]["nodes"], "states": sorted(inf[3]["edgesByState"].keys())}
             break
     ctx.coverage.update(
-        evaluations=len(batch), coq_checks=res["n"], programs=len(infos), distinct_nontrivial=len(nontrivial),
+        evaluations=len(batch) + n_hidden, hidden_node_drawings=n_hidden, coq_checks=res["n"], programs=len(infos), distinct_nontrivial=len(nontrivial),
         rule="graphs from the families dag / gated / emit+wait_for / loop (L1, L2) / ungated cycles / two cycles / shared output names (exclusive "
              "branches, ordered writers), with dependency-, gate- and "
              "signal-closed groups wrapped into nested graphs to depth 0-3 (siblings and nestings mixed), 20% with values renamed at wrapper "
